@@ -120,6 +120,7 @@ type suiteDef struct {
 	w     *world
 	cur   *keyInfo // the key the next Sign uses
 	extra string   // extra context needed in the document
+	di    bool     // Data Integrity ecdsa-2019 (no linked-data suite object)
 }
 
 type world struct {
@@ -131,6 +132,9 @@ type world struct {
 	rec        *recording
 	badFetch   map[string]*keyInfo // key id -> key handed out instead (key substitution)
 	tick       int
+	di         *diWorld
+	diExpect   [3]string // purpose, domain, challenge the verifier expects of a Data Integrity proof
+	lastDIVerifies []diVerify
 }
 
 // recSuite is what the framework sees: it records every call and delegates to the real suite.
@@ -329,6 +333,9 @@ func newWorld(rng *hx.Rng) *world {
 
 	w.suites = append(w.suites, bbs)
 
+	w.di = newDIWorld(w)
+	w.suites = append(w.suites, &suiteDef{name: "DataIntegrityProof", repr: verifiable.SignatureProofValue, w: w, extra: diCtx, di: true})
+
 	return w
 }
 
@@ -353,7 +360,7 @@ func (w *world) verifierSuites() []sigverifier.SignatureSuite {
 	seen := map[string]bool{}
 
 	for _, s := range w.suites {
-		if !seen[s.name] {
+		if !seen[s.name] && !s.di {
 			seen[s.name] = true
 
 			out = append(out, s)
@@ -449,18 +456,33 @@ func proofStageError(kind string, err error) bool {
 		return strings.HasPrefix(s, "decode new credential: ")
 	}
 
-	return strings.HasPrefix(s, "check embedded proof") || strings.HasPrefix(s, "public key fetcher") ||
-		strings.HasPrefix(s, "embedded proof is not JSON")
+	// a presentation: every error that is not raised by a later stage (schema / JSON-LD validation, decoding of the
+	// members) comes from the proof check
+	for _, later := range []string{"verifiable presentation is not valid", "validation of verifiable", "compact JSON-LD document",
+		"JSON-LD doc has different structure", "validate context URI position", "fill presentation", "decode credentials of presentation",
+		"fill credential proof", "verifiableCredential is required", "embedded proof is missing"} {
+		if strings.HasPrefix(s, later) {
+			return false
+		}
+	}
+
+	return true
 }
 
 func (w *world) verify(kind string, b []byte, strict bool) (verdict, *recording) {
 	w.rec = &recording{}
+	w.di.verifies = nil
 
 	var err error
 
 	if kind == "vc" {
 		opts := []verifiable.CredentialOpt{verifiable.WithJSONLDDocumentLoader(w.loader),
-			verifiable.WithEmbeddedSignatureSuites(w.verifierSuites()...), verifiable.WithPublicKeyFetcher(w.fetch)}
+			verifiable.WithEmbeddedSignatureSuites(w.verifierSuites()...), verifiable.WithPublicKeyFetcher(w.fetch),
+			verifiable.WithDataIntegrityVerifier(w.di.verifier)}
+		if w.diExpect != [3]string{} {
+			opts = append(opts, verifiable.WithExpectedDataIntegrityFields(w.diExpect[0], w.diExpect[1], w.diExpect[2]))
+		}
+
 		if strict {
 			opts = append(opts, verifiable.WithStrictValidation())
 		}
@@ -468,7 +490,12 @@ func (w *world) verify(kind string, b []byte, strict bool) (verdict, *recording)
 		_, err = verifiable.ParseCredential(b, opts...)
 	} else {
 		opts := []verifiable.PresentationOpt{verifiable.WithPresJSONLDDocumentLoader(w.loader),
-			verifiable.WithPresEmbeddedSignatureSuites(w.verifierSuites()...), verifiable.WithPresPublicKeyFetcher(w.fetch)}
+			verifiable.WithPresEmbeddedSignatureSuites(w.verifierSuites()...), verifiable.WithPresPublicKeyFetcher(w.fetch),
+			verifiable.WithPresDataIntegrityVerifier(w.di.verifier)}
+		if w.diExpect != [3]string{} {
+			opts = append(opts, verifiable.WithPresExpectedDataIntegrityFields(w.diExpect[0], w.diExpect[1], w.diExpect[2]))
+		}
+
 		if strict {
 			opts = append(opts, verifiable.WithPresStrictValidation())
 		}
@@ -619,8 +646,17 @@ func (w *world) coqEnv(doc map[string]interface{}, rec *recording) string {
 		types = append(types, cs(s.(*suiteDef).name)) //nolint:forcetypeassert
 	}
 
-	return fmt.Sprintf("(E %s %s %s %s %s %s %s true no_di)", hx.CoqList(canon), hx.CoqList(times), hx.CoqList(nonces),
-		hx.CoqList(pvs), hx.CoqList(segs), hx.CoqList(keys), hx.CoqList(types))
+	diEnv := "no_di"
+
+	if ps := proofEntries(doc); len(ps) > 0 && strOf(ps[0]["type"]) == "DataIntegrityProof" {
+		var extra []string
+
+		diEnv, extra = w.coqDIEnv(doc, w.lastDIVerifies)
+		canon = append(canon, extra...)
+	}
+
+	return fmt.Sprintf("(E %s %s %s %s %s %s %s true %s)", hx.CoqList(canon), hx.CoqList(times), hx.CoqList(nonces),
+		hx.CoqList(pvs), hx.CoqList(segs), hx.CoqList(keys), hx.CoqList(types), diEnv)
 }
 
 // strictInfo runs the public compaction and validation functions credential.go calls in strict mode.
@@ -682,6 +718,7 @@ func (w *world) runCase(tr *hx.Trace, gen string, cd caseDesc, doc map[string]in
 	cd.Doc = b
 
 	vd, rec := w.verify(cd.Kind, b, false)
+	w.lastDIVerifies = w.di.verifies
 	vs, recS := vd, rec
 
 	runStrict := cd.Class != "must-reject" || w.tick%4 == 0
